@@ -309,7 +309,7 @@ impl ProxyWorld {
     }
 }
 
-fn rust_flat(f: Flat) -> &'static str {
+pub fn rust_flat(f: Flat) -> &'static str {
     match f {
         Flat::I32 => "i32",
         Flat::I64 => "i64",
@@ -319,7 +319,7 @@ fn rust_flat(f: Flat) -> &'static str {
 }
 
 /// expression unpacking slot `i` of the u64 argument array into flat type `f`
-fn unpack(f: Flat, i: usize) -> String {
+pub fn unpack(f: Flat, i: usize) -> String {
     match f {
         Flat::I32 => format!("a[{i}] as u32 as i32"),
         Flat::I64 => format!("a[{i}] as i64"),
@@ -328,7 +328,7 @@ fn unpack(f: Flat, i: usize) -> String {
     }
 }
 
-fn pack(f: Flat, e: &str) -> String {
+pub fn pack(f: Flat, e: &str) -> String {
     match f {
         Flat::I32 => format!("({e}) as u32 as u64"),
         Flat::I64 => format!("({e}) as u64"),
@@ -339,7 +339,7 @@ fn pack(f: Flat, e: &str) -> String {
 
 // ---------------------------------------------------------------- Rust member
 
-const RUST_GLUE_HEAD: &str = r#"#![allow(warnings)]
+pub const RUST_GLUE_HEAD: &str = r#"#![allow(warnings)]
 use std::alloc::{GlobalAlloc, Layout, System};
 use std::cell::{Cell, RefCell};
 use std::collections::BTreeMap;
@@ -445,7 +445,7 @@ mod b;
 "#;
 
 /// text up to the `)` that closes a list whose `(` was just consumed
-fn balanced(s: &str) -> Option<&str> {
+pub fn balanced(s: &str) -> Option<&str> {
     let mut depth = 1;
     for (i, c) in s.char_indices() {
         match c {
@@ -463,7 +463,7 @@ fn balanced(s: &str) -> Option<&str> {
 }
 
 /// split at commas that are not nested in (), <> or []
-fn split_top(s: &str) -> Vec<String> {
+pub fn split_top(s: &str) -> Vec<String> {
     let (mut depth, mut cur, mut out) = (0i32, String::new(), vec![]);
     let cs: Vec<char> = s.chars().collect();
     for (i, c) in cs.iter().enumerate() {
@@ -490,11 +490,11 @@ fn split_top(s: &str) -> Vec<String> {
 }
 
 /// `_: i32, _: *mut u8, ` -> list of type texts
-fn split_params(p: &str) -> Vec<String> {
+pub fn split_params(p: &str) -> Vec<String> {
     p.split(',').map(|x| x.trim()).filter(|x| !x.is_empty()).map(|x| x.split_once(':').map(|y| y.1.trim().to_string()).unwrap_or_else(|| x.to_string())).collect()
 }
 
-fn pack_rust_ty(ty: &str, e: &str) -> String {
+pub fn pack_rust_ty(ty: &str, e: &str) -> String {
     match ty {
         "i32" => format!("{e} as u32 as u64"),
         "i64" => format!("{e} as u64"),
@@ -507,7 +507,7 @@ fn pack_rust_ty(ty: &str, e: &str) -> String {
     }
 }
 
-fn unpack_rust_ty(ty: &str, e: &str) -> String {
+pub fn unpack_rust_ty(ty: &str, e: &str) -> String {
     match ty {
         "i32" => format!("{e} as u32 as i32"),
         "i64" => format!("{e} as i64"),
@@ -664,6 +664,8 @@ pub struct Member {
     /// files of the member crate (lib.rs glue, b.rs bindings) or the reason it has none
     pub sources: Result<Vec<(String, String)>, String>,
     pub imports: Vec<(String, String)>,
+    /// link the guest crate with the async runtime (`async` feature)
+    pub async_rt: bool,
 }
 
 pub const WS: &str = "/verif/target/execws";
@@ -675,7 +677,7 @@ pub fn rust_member(k: usize, world: &ProxyWorld, variant: &str, args: &[&str]) -
     // the package is always v:w (one world per shared object)
     let wit = world.wit(0).replace("package v:w0;", "package v:w;");
     let _ = k;
-    let mut m = Member { world: world.clone(), wit: wit.clone(), variant: variant.to_string(), sources: Err(String::new()), imports: vec![] };
+    let mut m = Member { world: world.clone(), wit: wit.clone(), variant: variant.to_string(), sources: Err(String::new()), imports: vec![], async_rt: false };
     let (resolve, wid) = match backends::resolve_input(&Input::Text(&wit), Some("w")) {
         Ok(x) => x,
         Err(e) => {
@@ -733,7 +735,7 @@ pub fn build_rust(members: &[Member]) -> Vec<Result<PathBuf, String>> {
         std::fs::create_dir_all(d.join("src")).unwrap();
         std::fs::write(
             d.join("Cargo.toml"),
-            format!("[package]\nname = \"{n}\"\nversion = \"0.0.0\"\nedition = \"2021\"\n[lib]\ncrate-type = [\"staticlib\"]\n[dependencies]\nwit-bindgen = {{ path = \"/repo/crates/guest-rust\", default-features = false, features = [\"realloc\", \"std\", \"bitflags\"] }}\n"),
+            format!("[package]\nname = \"{n}\"\nversion = \"0.0.0\"\nedition = \"2021\"\n[lib]\ncrate-type = [\"staticlib\"]\n[dependencies]\nwit-bindgen = {{ path = \"/repo/crates/guest-rust\", default-features = false, features = [\"realloc\", \"std\", \"bitflags\"{}] }}\n", if m.async_rt { ", \"async\"" } else { "" }),
         )
         .unwrap();
         for (f, text) in srcs {
@@ -816,9 +818,17 @@ pub struct Lib {
 
 impl Lib {
     pub fn open(p: &Path) -> Result<Lib, String> {
-        let c = std::ffi::CString::new(p.to_string_lossy().as_bytes()).unwrap();
+        // dlclose does not unload an object that registered thread-local destructors, and
+        // dlopen of a path it has seen before hands the old object out again: every load goes
+        // through a name of its own, so that a rebuilt object at the same path is really loaded
+        static LOADS: std::sync::atomic::AtomicU64 = std::sync::atomic::AtomicU64::new(0);
+        let n = LOADS.fetch_add(1, std::sync::atomic::Ordering::Relaxed);
+        let unique = p.with_extension(format!("{}-{n}.so", std::process::id()));
+        std::fs::copy(p, &unique).map_err(|e| format!("copying {}: {e}", p.display()))?;
+        let c = std::ffi::CString::new(unique.to_string_lossy().as_bytes()).unwrap();
         // RTLD_NOW | RTLD_LOCAL
         let h = unsafe { dlopen(c.as_ptr(), 2) };
+        let _ = std::fs::remove_file(&unique);
         if h.is_null() {
             let e = unsafe { std::ffi::CStr::from_ptr(dlerror()) }.to_string_lossy().to_string();
             return Err(e);
@@ -891,13 +901,31 @@ fn guest_valid(p: u64, n: u64) -> bool {
     unsafe { f(p as usize, n as usize) != 0 }
 }
 
-fn real_mem() -> Mem {
+/// install the host context for a loaded guest object (used by the async driver, which has its
+/// own import dispatcher)
+pub fn install_guest(world: &ProxyWorld, lib: &Lib) {
+    let realloc = unsafe { std::mem::transmute(lib.sym("__verif_realloc").expect("glue symbol")) };
+    let is_live = unsafe { std::mem::transmute(lib.sym("__verif_is_live").expect("glue symbol")) };
+    CTX.with(|c| *c.borrow_mut() = Some(Ctx { guest_owns: Default::default(), lent: Default::default(), world: world.clone(), import_func: vec![], current: None, failures: vec![], import_seen: 0, realloc: Some(realloc), is_live: Some(is_live), extra_valid: vec![] }));
+}
+pub fn take_failures() -> Vec<(String, String)> {
+    CTX.with(|c| c.borrow_mut().take().map(|c| c.failures).unwrap_or_default())
+}
+/// a range of guest memory that is not a heap block (stack or static areas the guest passed)
+pub fn add_valid(at: u64, len: u64) {
+    ctx(|c| c.extra_valid.push((at, len)))
+}
+pub fn clear_valid() {
+    ctx(|c| c.extra_valid.clear())
+}
+
+pub fn real_mem() -> Mem {
     let mut m = Mem::real(guest_alloc);
     m.valid_fn = Some(guest_valid);
     m
 }
 
-fn fail(sig: &str, msg: String) {
+pub fn fail(sig: &str, msg: String) {
     ctx(|c| {
         if c.failures.len() < 8 {
             c.failures.push((sig.to_string(), msg));
@@ -907,7 +935,7 @@ fn fail(sig: &str, msg: String) {
 
 /// comparison form of a value: NaNs canonical (refabi::norm), map entries in key order (a map
 /// is a set of entries; the guest's BTreeMap/HashMap does not keep the wire order)
-fn canon(v: &Val) -> Val {
+pub fn canon(v: &Val) -> Val {
     fn go(v: Val) -> Val {
         match v {
             Val::Map(m) => {
@@ -931,7 +959,7 @@ fn canon(v: &Val) -> Val {
 }
 
 /// run refabi code that may panic on undecodable guest data
-fn decode<R>(what: &str, f: impl FnOnce() -> R) -> Option<R> {
+pub fn decode<R>(what: &str, f: impl FnOnce() -> R) -> Option<R> {
     match vcommon::panics::catch(std::panic::AssertUnwindSafe(f)) {
         Ok(r) => Some(r),
         Err(p) => {
@@ -1039,6 +1067,14 @@ unsafe extern "C" fn host_call(id: u32, args: *const u64, nargs: usize, ret: *mu
 
 /// run all calls of one world against its shared object
 pub fn run_world(so: &Path, world: &ProxyWorld, imports: &[(String, String)], stats: &mut Stats) -> Vec<(String, String)> {
+    // if the guest code aborts or segfaults, the crash guard reports this world
+    vcommon::abort::set_current(&serde_json::json!({"wit": world.wit(0).replace("package v:w0;", "package v:w;"), "world": world}).to_string());
+    let r = run_world_inner(so, world, imports, stats);
+    vcommon::abort::clear();
+    r
+}
+
+fn run_world_inner(so: &Path, world: &ProxyWorld, imports: &[(String, String)], stats: &mut Stats) -> Vec<(String, String)> {
     let lib = match Lib::open(so) {
         Ok(l) => l,
         Err(e) => return vec![("load-error".into(), format!("cannot load the guest library: {e}"))],
